@@ -2,6 +2,7 @@ package main
 
 import (
 	"fmt"
+	"go/token"
 	"sort"
 	"strings"
 
@@ -417,6 +418,39 @@ func runC08(c *Ctx) {
 			}
 		}
 		c.check(len(bad) == 0, "positions-from-search", fnKey(rb), p.FnPos(rb), "walks max seats clockwise from the start id, wrapping at the end", "the ring is not the clockwise order from the start seat", uniq(bad, 3)...)
+	}
+
+	// ---- active-flag-owner: the waiting marker (IsActive) is only changed by the hand transition
+	// (Next's call tree) and by the restore/reset API: join, leave, sit-in and reserve never
+	// activate or deactivate a seat, otherwise a newcomer is dealt in before the button has passed
+	if next != nil {
+		tree := ix.Reachable(next)
+		allowed := map[string]bool{"ApplyStates": true, "Reset": true}
+		var bad []string
+		n := 0
+		for _, w := range ix.AnyWriters("seat_manager.Seat.IsActive") {
+			n++
+			c.touch(fnKey(w))
+			if tree[w] || allowed[w.Name()] {
+				continue
+			}
+			if len(ix.Callers(w)) == 0 && !token.IsExported(w.Name()) {
+				continue // dead helper: never runs
+			}
+			// constructors / reset helpers reachable only from Reset or the constructor
+			okReset := len(ix.Callers(w)) > 0
+			for _, cl := range ix.Callers(w) {
+				if !(allowed[cl.Name()] || strings.HasPrefix(cl.Name(), "New")) {
+					okReset = false
+				}
+			}
+			if okReset {
+				continue
+			}
+			bad = append(bad, fnKey(w)+" changes Seat.IsActive outside the next-hand transition")
+		}
+		c.floor("active-flag-owner", "writers of Seat.IsActive", n, 3)
+		c.check(len(bad) == 0, "active-flag-owner", "Seat.IsActive", p.FnPos(next), "the waiting marker is written only by the next-hand transition and the reset/restore API", "a seat operation other than Next changes who is waiting for the button", bad...)
 	}
 
 	runC08Strings(c)
